@@ -614,20 +614,23 @@ Definition sx_s0 : sys :=
   mksys [sx_bar 65; sx_bar 66; sx_bar 67; sx_bar 88] (new_ms (TTerm (new_ttarget None 0))) 0.
 Definition sx_h : list (N * mstep) :=
   [(0, MCall (OInsert BEnd 0)); (0, MCall (OInsert BEnd 1)); (1000000, MCall (OTick 0)); (1000001, MCall (OTick 1));
-   (2000000, MRead 7 0); (2000001, MCall (OTick 1)); (2000002, MAlloc 7 (BAfter 0) 3);
-   (3000000, MAlloc 8 (BIndex 1) 2); (3000001, MCall (OTick 0)); (3000002, MAttach 7 3);
-   (3000003, MAttach 8 2); (4000000, MCall (OTick 2)); (4000001, MCall (OTick 3))].
+   (2000000, MRead 7 0); (2000001, MCall (OTick 1)); (2000002, MCheck 7 3); (2000003, MAlloc 7 (BAfter 0) 3);
+   (2500000, MCheck 8 2); (3000000, MAlloc 8 (BIndex 1) 2); (3000001, MCall (OTick 0)); (3000002, MAttach 7 3);
+   (3000003, MAttach 8 2); (4000000, MCall (OTick 2)); (4000001, MCall (OTick 3));
+   (* thread 3 adds A again: the check says "member", allocation and attach do nothing *)
+   (5000000, MCheck 9 0); (5000001, MCall (OTick 1)); (5000002, MAlloc 9 BEnd 0); (5000003, MAttach 9 0)].
 
 Example C02_insert_sections_nonvacuous :
   let nf := fun _ : N => false in
-  sched_ok 20 10 nf sx_s0 (fun _ => None) [] sx_h
-  /\ pend_run 20 10 nf sx_s0 (fun _ => None) [] sx_h = []
+  sched_ok 20 10 nf sx_s0 lc0 [] sx_h
+  /\ pend_run 20 10 nf sx_s0 lc0 [] sx_h = []
   /\ atomize sx_h = [(0, OInsert BEnd 0); (0, OInsert BEnd 1); (1000000, OTick 0); (1000001, OTick 1);
-                     (2000001, OTick 1); (2000002, OInsert (BAfter 0) 3); (3000000, OInsert (BIndex 1) 2);
-                     (3000001, OTick 0); (4000000, OTick 2); (4000001, OTick 3)]
+                     (2000001, OTick 1); (2000003, OInsert (BAfter 0) 3); (3000000, OInsert (BIndex 1) 2);
+                     (3000001, OTick 0); (4000000, OTick 2); (4000001, OTick 3);
+                     (5000001, OTick 1); (5000002, OInsert BEnd 0)]
   /\ hist_ok 20 10 nf sx_s0 (atomize sx_h)
-  /\ map (slot_of (fst (fst (sec_run 20 10 nf (sx_s0, fun _ => None) sx_h)))) [0; 2; 3; 1]
-     = ms_order (s_mp (fst (fst (sec_run 20 10 nf (sx_s0, fun _ => None) sx_h)))).
+  /\ map (slot_of (fst (fst (sec_run 20 10 nf (sx_s0, lc0) sx_h)))) [0; 2; 3; 1]
+     = ms_order (s_mp (fst (fst (sec_run 20 10 nf (sx_s0, lc0) sx_h)))).
 Proof.
   cbn zeta. split; [|split; [|split; [|split]]]; try (vm_compute; repeat split; fail).
   vm_compute.
@@ -657,23 +660,26 @@ Definition sy_s0 : sys :=
 Definition sy_h : list (N * mstep) :=
   [(0, MCall (OInsert BEnd 0)); (1000000, MCall (OTick 0));
    (2000000, MRead 7 0); (2000001, MCall (ORemove 0)); (2000002, MCall (OInsert BEnd 2));
-   (2000003, MAlloc 7 (BAfter 0) 1); (2000004, MAttach 7 1); (3000000, MCall (OTick 1)); (3000001, MCall (OTick 2))].
+   (2000003, MCheck 7 1); (2000004, MAlloc 7 (BAfter 0) 1); (2000005, MAttach 7 1);
+   (3000000, MCall (OTick 1)); (3000001, MCall (OTick 2))].
 
 Theorem C02_insert_sections_stale_index_refuted :
   let nf := fun _ : N => false in
   exists (s0 : sys) (h : list (N * mstep)),
-    let s1 := fst (fst (sec_run 20 10 nf (s0, fun _ => None) h)) in
+    let s1 := fst (fst (sec_run 20 10 nf (s0, lc0) h)) in
     let s2 := fst (run_out 20 10 nf s0 (atomize h)) in
     (* section run: the ordering is [slot of Y; slot of X], both bars are members and painted *)
     map (slot_of s1) [2; 1] = ms_order (s_mp s1) /\ is_member s1 1 = true
-    /\ snd (sec_run 20 10 nf (s0, fun _ => None) h) <> snd (run_out 20 10 nf s0 (atomize h))
+    /\ snd (sec_run 20 10 nf (s0, lc0) h) <> snd (run_out 20 10 nf s0 (atomize h))
     (* atomic run of the same calls: X never becomes a member *)
     /\ map (slot_of s2) [2] = ms_order (s_mp s2) /\ is_member s2 1 = false
-    /\ ~ sched_ok 20 10 nf s0 (fun _ => None) [] h.
+    /\ ~ sched_ok 20 10 nf s0 lc0 [] h.
 Proof.
   cbn zeta. exists sy_s0, sy_h.
   split; [vm_compute; reflexivity|]. split; [vm_compute; reflexivity|].
   split; [vm_compute; discriminate|]. split; [vm_compute; reflexivity|]. split; [vm_compute; reflexivity|].
-  vm_compute. intros (_ & _ & _ & _ & _ & (_ & _ & _ & E) & _). discriminate E.
+  intros F. vm_compute in F.
+  repeat match goal with H : _ /\ _ |- _ => destruct H end.
+  match goal with H : Some _ = None |- _ => discriminate H end.
 Qed.
 Print Assumptions C02_insert_sections_stale_index_refuted.
